@@ -42,7 +42,8 @@ RULE = (
     "recorded and replayed against the async resolver and the model; option values incl. falsy ones (lifetime/timeout 0), "
     "name/type/class as text, nameservers as address strings (Do53 enrichment, per-server ports), source address/port, "
     "one name asked for types X/Y/X; plus stand-alone candidate-name, chaining and _compute_timeout (clock also running "
-    "backwards) cases; "
+    "backwards) cases; resolve_name for AF_UNSPEC/AF_INET/AF_INET6 (first lookup often using up most of the lifetime), "
+    "canonical_name, resolve_address, zone_for_name; "
     "a case is non-trivial if its key (configuration, requests, script) is new and it issued at least one query or cache probe"
 )
 TRUSTED_BASE = [
@@ -59,11 +60,15 @@ ASSUMPTIONS = [
     "broken-server exclusion is per candidate name: the code rebuilds the server list for each candidate (DESIGN §7 C16)",
     "timeouts/lifetimes are exact binary fractions of a second in generated cases so that float and integer-millisecond arithmetic agree",
     "TSIG/EDNS request decoration, DoH/DoT/DoQ transports and resolv.conf parsing are outside the model",
+    "composite entry points: resolve_name is modelled and proved; canonical_name, resolve_address (sync + asyncio) and the "
+    "synchronous zone_for_name are driven and checked by the oracle only (each inner resolve as a resolution of its own, the "
+    "shared lifetime as a budget); try_ddr, resolve_at/make_resolver_at and the module-level wrappers around the default "
+    "resolver are not driven",
     "whether the back-off sleep is clipped to the remaining lifetime is observed on the working tree on every run "
     "(ConstsC16.clipSleep); ends_within_lifetime is an obligation about that value; the unclipped variant of the model is retained",
 ]
 LEVEL = {
-    "text": "Lean 4 theorems (lean/Props/C16.lean, 30 statements, no sorry) over an executable model of _get_qnames_to_try, "
+    "text": "Lean 4 theorems (lean/Props/C16.lean, 32 statements, no sorry) over an executable model of _get_qnames_to_try, "
             "_Resolution.{next_request,next_nameserver,query_result}, _compute_timeout, the Resolver.resolve loop on an "
             "integer-millisecond clock driven by an arbitrary finite script of per-query outcomes with durations, "
             "QueryMessage.resolve_chaining and the cache as a timed map. resolve = spec for every script, where spec is an "
@@ -76,7 +81,9 @@ LEVEL = {
             "never re-asked for the same candidate; one immediate TCP retry on the same server after UDP truncation (trace "
             "monitor accepted by every run); search/ndots candidate order; bounded CNAME chain with exact minimum TTL and negative "
             "TTL from the closest SOA; the cache changes only under (candidate,type,class)/(candidate,ANY,class). Tied to the code "
-            "by scripted-nameserver correspondence on a virtual clock (sync and asyncio; model and spec both run in the driver).",
+            "by scripted-nameserver correspondence on a virtual clock (sync and asyncio; model and spec both run in the driver). "
+            "resolve_name (AAAA then A under one deadline) is modelled as a composition (Model/ResolverName.lean) and proved to end "
+            "within the caller's lifetime for every family and script (resolve_name_within_lifetime).",
     "note": "sync = async: the asyncio resolve loop is modelled separately as a coroutine with its two suspension points "
             "(Model/ResolverAsync.lean) and proved to produce, on an event loop whose timers fire on time, exactly the synchronous "
             "event sequence, result and final state (async_eq_sync); that this coroutine model is asyncresolver.py is the tie "
